@@ -4,6 +4,8 @@ import (
 	"bytes"
 	"context"
 	"errors"
+	"io"
+	"strings"
 	"runtime"
 	"strconv"
 
@@ -331,6 +333,52 @@ func evalC14(c *Ctx, cs *Case) {
 						}
 					}
 				}
+			}
+		}
+	}
+	// ------------------------------------------------------------------ concrete writer types in sequence
+	// a call into an in-memory buffer, then a call whose writer fails, then a call into another
+	// buffer: each call must use ITS writer (a callee that special-cases *bytes.Buffer /
+	// *strings.Builder must not keep one across calls)
+	if !heading {
+		for _, massive := range []bool{false, true} {
+			mode := map[bool]string{true: "massive", false: "simple"}[massive]
+			cs.Entry = "OutputFromMarkdown[text]," + mode
+			cs.Tags = append(append([]string(nil), baseTags...), "writer-sequence", mode)
+			if massive {
+				c.Rejournal(cs)
+			}
+			call := func(w io.Writer) Outcome {
+				base := runtime.NumGoroutine()
+				o := Guard(func() error { return gtree.OutputFromMarkdown(w, bytes.NewReader(doc), mo(massive)...) })
+				if massive {
+					c14Quiet.Quiesce(base)
+				}
+				return o
+			}
+			var b1 bytes.Buffer
+			o1 := call(&b1)
+			first := b1.String()
+			fw := mon.NewRecWriter()
+			fw.FailAt = 0
+			o2 := call(fw)
+			_, failed, _ := fw.Stats()
+			var sb strings.Builder
+			o3 := call(&sb)
+			c.Eval(gen.HashString(string(doc)+"\x00wseq"+mode), true)
+			c.Count("writer_sequences", 1)
+			det := map[string]any{"doc": trunc(string(doc), 600), "first_len": len(first), "first_buffer_len_after": b1.Len(), "third_len": sb.Len(), "err2": errStr(o2.Err), "failed_writes_2": failed}
+			switch {
+			case o1.Panic != nil || o2.Panic != nil || o3.Panic != nil:
+				c.Violation(cs, "panic", "writer-sequence", det)
+			case o1.Err != nil || o3.Err != nil:
+				// other properties' business
+			case o2.Err == nil:
+				c.Violation(cs, "writer.failure-swallowed", "sequence", det)
+			case b1.String() != first:
+				c.Violation(cs, "writer.earlier-writer-written-later", "sequence", det)
+			case len(sb.String()) != len(first):
+				c.Violation(cs, "writer.nil-but-output-incomplete", "sequence", det)
 			}
 		}
 	}
